@@ -78,6 +78,12 @@ def cases(ctx):
             yield 'delete', dialect, text[:off] + text[end:], None
             yield 'duplicate', dialect, text[:off] + tok + ' ' + text[off:], None
             yield 'replace', dialect, text[:off] + other + text[end:], None
+        # 3. a complete EXPORTS clause anywhere but in its one legal place (right after BEGIN, once): the text must be rejected
+        for k in idxs[:max(4, per // 4)]:
+            tok, off, line = pos[k]
+            legal = k > 0 and pos[k - 1][0] == 'BEGIN' and not tok.startswith('EXPORTS')
+            if not legal:
+                yield 'insert-exports', dialect, text[:off] + 'EXPORTS zzA, zzB; ' + text[off:], 'reject'
         # truncation in the middle of tokens / strings
         for _ in range(per // 3):
             yield 'truncate-raw', dialect, text[:rng.randint(0, len(text))], None
@@ -96,7 +102,7 @@ def run(ctx):
     res = ctx.res
     res.rule = ('generated well-formed modules (all three dialects, plain and wild layouts) mutated at sampled (quick) / all (thorough) token '
                 'positions: prefix truncation at token boundaries, insertion of an illegal character / forbidden ASN.1 word / oversize number / '
-                'trailing-hyphen identifier at a known line, single-token delete / duplicate / replace, raw truncation; character noise; '
+                'trailing-hyphen identifier at a known line, a complete EXPORTS clause out of place, single-token delete / duplicate / replace, raw truncation; character noise; '
                 'hand-written edge texts (unterminated MACRO / EXPORTS / CHOICE, empty, comment-only); non-trivial = not the unmodified text')
     reqs, metas = [], []
     loaded = set()
@@ -123,6 +129,8 @@ def run(ctx):
             res.oracle_failures.append({'key': 'rejects-valid', 'what': 'well-formed text rejected: %r' % (impl,), 'input': inp})
         if expect == 'error' and not err:
             res.oracle_failures.append({'key': 'accepts-truncated', 'what': 'text ending inside a module was accepted', 'input': inp})
+        if expect == 'reject' and not err:
+            res.oracle_failures.append({'key': 'accepts-malformed', 'what': 'a text with an EXPORTS clause out of place was accepted', 'input': inp})
         if isinstance(expect, tuple):
             if err != 'lexer' or impl.get('line') != expect[1]:
                 res.oracle_failures.append({'key': 'located-lexer-error', 'what': 'bad token on line %d reported as %r' % (expect[1], impl), 'input': inp})
@@ -162,7 +170,7 @@ def replay(payload):
     fails = False
     if key == 'other-exception':
         fails = bool(err) and err.startswith('other')
-    elif key == 'accepts-truncated':
+    elif key in ('accepts-truncated', 'accepts-malformed'):
         fails = not err
     elif key == 'located-lexer-error' or key == 'line':
         fails = (err, impl.get('line')) != tuple(inp.get('expect', ('lexer', None)))
